@@ -198,11 +198,11 @@ func checkC16(c *Ctx, r *Report) {
 				eachInstr(g, func(in ssa.Instruction) {
 					switch x := in.(type) {
 					case *ssa.UnOp:
-						if gl, ok := x.X.(*ssa.Global); ok && gl.Name() == "LocalAddrContextKey" {
+						if gl, ok := x.X.(*ssa.Global); ok && gname(gl) == "LocalAddrContextKey" {
 							sawLocal = true
 						}
 					case *ssa.FieldAddr:
-						if fv, _, is := fieldOf(x); is && fv.Name() == "Host" && structName(x.X.Type()) == "net/http.Request" {
+						if fv, _, is := fieldOf(x); is && fname(fv) == "Host" && structName(x.X.Type()) == "net/http.Request" {
 							sawHost = true
 						}
 					}
